@@ -2,7 +2,13 @@
 //!
 //! Case line:  `<view> <ndocs> <doc text>{ndocs} <op>*`   (strings = decimal code points, see util)
 //!   view    `r` | `m`: value of `text_expanded` while the *operations* run (navigation used by the
-//!           mutators themselves does not depend on it; both views are always dumped)
+//!           mutators themselves does not depend on it; both views are always dumped);
+//!           optional suffixes: `!k` = no dumps before record k; `+x` = extended dump (C13 / C15):
+//!           after the `S<k>` words every dump carries `X<h>=<owner document>/<qualified name>` per
+//!           handle and, per document, `R<k>=` the result of re-parsing its serialisation:
+//!           `ok:eq` | `ok:ne:<content of the edited document>:<content of the re-parse>` |
+//!           `noparse` | `rest` | `panic` (content = canonical form in the merged-text view, text
+//!           nodes without characters ignored).  Without `+x` the output is unchanged.
 //!   op      fields joined by ':' -- handles are indices into the handle table
 //!     AC:r:n  append_child        IB:r:n:f insert_before      RC:r:n:o replace_child   RM:r:o remove_child
 //!     SA:r:name:value set_attribute   SAN:r:a set_attribute_node   RA:r:name remove_attribute
@@ -46,6 +52,10 @@ struct St {
     docs: Vec<Doc>,
     hs: Vec<(usize, XmlNode)>,
     index: HashMap<(usize, usize), usize>,
+    /// `+x`: extended dump
+    ext: bool,
+    /// document index of a fragment -> index of the document that created it
+    frag_owner: HashMap<usize, usize>,
 }
 
 fn item_of(n: &XmlNode) -> Option<Rc<info::XmlItem>> {
@@ -301,7 +311,119 @@ fn dump(st: &St) -> String {
             out.push(format!("S{}={}", k, enc(&dm.to_string())));
         }
     }
+    if st.ext {
+        for (i, (d, n)) in st.hs.iter().enumerate() {
+            let owner = st.frag_owner.get(d).copied().unwrap_or(*d);
+            out.push(format!("X{}={}/{}", i, owner, qualified(n).map(|q| enc(&q)).unwrap_or("~".to_string())));
+        }
+        for (k, d) in st.docs.iter().enumerate() {
+            if let Some(dm) = &d.dom {
+                let r = catch_unwind(AssertUnwindSafe(|| reparse(st, dm)))
+                    .unwrap_or_else(|_| "panic".to_string());
+                out.push(format!("R{}={}", k, r));
+            }
+        }
+    }
     out.join(" ")
+}
+
+/// qualified name of an element / attribute as it is serialised
+fn qualified(n: &XmlNode) -> Option<String> {
+    let item = item_of(n)?;
+    match &*item {
+        info::XmlItem::Element(e) => {
+            let e = e.borrow();
+            Some(match e.prefix() {
+                Some(p) => format!("{}:{}", p, e.local_name()),
+                None => e.local_name().to_string(),
+            })
+        }
+        info::XmlItem::Attribute(a) => {
+            let a = a.borrow();
+            Some(match a.prefix() {
+                Some(p) => format!("{}:{}", p, a.local_name()),
+                None => a.local_name().to_string(),
+            })
+        }
+        _ => None,
+    }
+}
+
+/// canonical content of a (sub)tree through the DOM API, merged-text view must be on
+fn canon(n: &XmlNode, out: &mut String) {
+    match n {
+        XmlNode::Document(_) => {
+            out.push_str("D[");
+            for c in child_list(n) {
+                canon(&c, out);
+            }
+            out.push(']');
+        }
+        XmlNode::Element(_) => {
+            out.push_str("E(");
+            out.push_str(&qualified(n).unwrap_or_default());
+            let (ns, at, _) = parts(n);
+            let mut l: Vec<(String, String)> = ns
+                .iter()
+                .chain(at.iter())
+                .map(|a| {
+                    (
+                        qualified(a).unwrap_or_default(),
+                        a.node_value().ok().flatten().unwrap_or("!".to_string()),
+                    )
+                })
+                .collect();
+            l.sort();
+            for (k, v) in l {
+                out.push_str(&format!(" {}={:?}", k, v));
+            }
+            out.push_str(")[");
+            for c in child_list(n) {
+                canon(&c, out);
+            }
+            out.push(']');
+        }
+        XmlNode::ExpandedText(t) => {
+            let d = dom::CharacterData::data(t).unwrap_or("!".to_string());
+            if !d.is_empty() {
+                out.push_str(&format!("T({:?})", d));
+            }
+        }
+        XmlNode::Text(_) | XmlNode::CData(_) | XmlNode::EntityReference(_) => {
+            // only outside elements (merged view is on): attribute values are compared by value
+            out.push_str(&format!("t({:?})", n.to_string()));
+        }
+        XmlNode::Comment(_) => out.push_str(&format!("C({:?})", n.node_value().ok().flatten().unwrap_or_default())),
+        XmlNode::PI(_) => out.push_str(&format!(
+            "P({} {:?})",
+            n.node_name(),
+            n.node_value().ok().flatten().unwrap_or_default()
+        )),
+        XmlNode::DocumentType(_) => out.push_str(&format!("Y({:?})", n.to_string())),
+        _ => out.push_str("?"),
+    }
+}
+
+/// re-parse the serialisation of a document and compare contents (see the module comment)
+fn reparse(st: &St, dm: &dom::XmlDocument) -> String {
+    let text = dm.to_string();
+    st.set_view(true);
+    let mut a = String::new();
+    canon(&dm.as_node(), &mut a);
+    st.set_view(false);
+    match dom::XmlDocument::from_raw_with_context(&text, dom::Context::from_text_expanded(true)) {
+        Ok(("", d2)) => {
+            let mut b = String::new();
+            canon(&d2.as_node(), &mut b);
+            if a == b {
+                "ok:eq".to_string()
+            } else {
+                format!("ok:ne:{}:{}", enc(&a), enc(&b))
+            }
+        }
+        Ok(_) => "rest".to_string(),
+        Err(_) => "noparse".to_string(),
+    }
 }
 
 /// description of the freshly parsed documents for the model driver:
@@ -694,6 +816,7 @@ fn run_op(st: &mut St, op: &str) -> Res {
                 _ => {
                     let fr = d.create_document_fragment().as_node();
                     st.docs.push(Doc { info: None, dom: None });
+                    st.frag_owner.insert(st.docs.len() - 1, rd);
                     Res::New(st.docs.len() - 1, fr)
                 }
             }
@@ -764,15 +887,19 @@ pub fn case(line: &str) -> String {
     if w.len() < 2 {
         return "badinput".to_string();
     }
-    // "r" | "m", optionally followed by "!k": records before k carry no dump ("-")
-    let mut vw = w[0].split('!');
+    // "r" | "m", optionally followed by "!k": records before k carry no dump ("-"), and by "+x"
+    let (w0, ext) = match w[0].split_once('+') {
+        Some((a, b)) => (a, b.contains('x')),
+        None => (w[0], false),
+    };
+    let mut vw = w0.split('!');
     let merged = vw.next() == Some("m");
     let from: usize = vw.next().and_then(|x| x.parse().ok()).unwrap_or(0);
     let nd: usize = w[1].parse().unwrap_or(0);
     if w.len() < 2 + nd {
         return "badinput".to_string();
     }
-    let mut st = St { docs: vec![], hs: vec![], index: HashMap::new() };
+    let mut st = St { docs: vec![], hs: vec![], index: HashMap::new(), ext, frag_owner: HashMap::new() };
     for k in 0..nd {
         let text = match dec(w[2 + k]) {
             Some(t) => t,
